@@ -39,7 +39,7 @@ SPECS = {
                        dict(test="TestC09Concurrent", race=True, quick=16, thorough=320, shards=16, timeout=1500)], floor=0.30, rule=None, assumptions=MACHINE_ASSUME),
     "C10": dict(units=[machine("TestC10", 400, 6000, steps=36), machine("TestC10Disk", 0, 1600, steps=30, thorough_only=True),
                        machine("TestC10PostUpgrade", 160, 2400)], floor=0.40, rule=None, assumptions=MACHINE_ASSUME),
-    "C14": dict(units=[dict(test="TestC14Enum", quick=16, thorough=640, shards=16, timeout=1800), dict(test="TestC14", quick=40000, thorough=2000000, timeout=1800),
+    "C14": dict(units=[dict(test="TestC14Enum", quick=16, thorough=640, shards=16, timeout=1800), dict(test="TestC14", quick=40000, thorough=2000000, timeout=1800), machine("TestC14Chain", 320, 5000, steps=28),
                        dict(test="TestKnownC14", kind="plain", quick=1, thorough=1), dict(test="TestKnownC14UTF8", kind="plain", quick=1, thorough=1)],
                 floor=0.30,
                 rule="(a) all 14x14 ordered type pairs x 3 sign modes enumerated with maximally overlapping instances (every same-named field copied onto the minimal valid instance of the other type; the minimal and generated base instances); (b) rapid-generated near-collision pairs: same fields under another type, a character moved between adjacent string fields, independent messages of the same / any type; oracle: equal sign bytes (direct, direct-aux, legacy amino JSON through the app's SignModeHandler) imply equal type URL and equal protobuf bytes, asserted when both messages pass stateless validation, plus recomputation with a fresh encoding configuration; non-trivial = the two messages differ and both pass stateless validation; distinct = distinct (type, proto) pair",
